@@ -374,15 +374,30 @@ func c03Compact(p *profile.Profile) (q *profile.Profile, res string) {
 //   observed = ["ok"; dump; [shared pointer paths]; inputs-modified; compact-is-identity;
 //               [krs per output mapping]; [dump of Merge(reverse inputs)] ]  |  ["err"] | ["panic"; msg]
 func c03Emit(c *Ctx, gen string, ps []*profile.Profile, nontrivial bool, tags ...string) {
+	c03EmitOp(c, gen, "merge", ps, nontrivial, tags...)
+}
+
+// c03EmitCompact records p.Compact() (op "compact": same layout and same judgement as Merge([p])).
+func c03EmitCompact(c *Ctx, gen string, p *profile.Profile, nontrivial bool, tags ...string) {
+	c03EmitOp(c, gen, "compact", []*profile.Profile{p}, nontrivial, tags...)
+}
+
+func c03EmitOp(c *Ctx, gen, op string, ps []*profile.Profile, nontrivial bool, tags ...string) {
 	var ins, krs []Term
 	for _, p := range ps {
 		ins = append(ins, DumpProfile(p))
 		krs = append(krs, c03KRS(p))
 	}
-	in := L(S("merge"), L(ins...), L(krs...))
+	in := L(S(op), L(ins...), L(krs...))
 	before := Render(in)
-	q, res, msg := c03Merge(ps)
-	tags = append(tags, "res:"+res, fmt.Sprintf("inputs:%d", len(ps)))
+	var q *profile.Profile
+	var res, msg string
+	if op == "compact" {
+		q, res = c03Compact(ps[0])
+	} else {
+		q, res, msg = c03Merge(ps)
+	}
+	tags = append(tags, "op:"+op, "res:"+res, fmt.Sprintf("inputs:%d", len(ps)))
 	var obs Term
 	switch res {
 	case "ok":
@@ -392,7 +407,7 @@ func c03Emit(c *Ctx, gen string, ps []*profile.Profile, nontrivial bool, tags ..
 			ins2 = append(ins2, DumpProfile(p))
 			krs2 = append(krs2, c03KRS(p))
 		}
-		modified := Render(L(S("merge"), L(ins2...), L(krs2...))) != before
+		modified := Render(L(S(op), L(ins2...), L(krs2...))) != before
 		d := DumpProfile(q)
 		q2, res2 := c03Compact(q)
 		same := res2 == "ok" && q2 != nil && q2 != q && Render(DumpProfile(q2)) == Render(d) && Render(DumpProfile(q)) == Render(d) &&
@@ -1117,12 +1132,190 @@ func c03LocKeyCases(c *Ctx, n int) {
 	}
 }
 
+// ---------------------------------------------------------------------------------------------
+// duplicate records INSIDE one input: several sample records with the same stack and labels whose
+// values cancel, cancel partly, or cancel in some columns only.  Merge must sum them, drop the
+// all-zero sums together with the entities only they reference (this is what the re-merge of the
+// result is for, also for a one-element list), and Compact must reach its fixed point at once.
+
+// c03DupGroup returns the value vectors of one group of duplicate records.
+func c03DupGroup(r *Rng, nst int, mode int) (vals [][]int64, tag string) {
+	v := make([]int64, nst)
+	for i := range v {
+		v[i] = int64(1 + r.Intn(9))
+		if r.P(1, 4) {
+			v[i] = -v[i]
+		}
+	}
+	neg := func(a []int64) []int64 {
+		b := make([]int64, len(a))
+		for i := range a {
+			b[i] = -a[i]
+		}
+		return b
+	}
+	cp := func(a []int64) []int64 { return append([]int64(nil), a...) }
+	switch mode {
+	case 0: // cancel completely
+		return [][]int64{v, neg(v)}, "dup:cancel"
+	case 1: // cancel partly: one column keeps a remainder
+		w := neg(v)
+		w[r.Intn(nst)] += int64(1 + r.Intn(3))
+		return [][]int64{v, w}, "dup:partial"
+	case 2: // cancel in one column only
+		w := cp(v)
+		j := r.Intn(nst)
+		w[j] = -v[j]
+		if nst == 1 {
+			return [][]int64{v, w}, "dup:cancel"
+		}
+		return [][]int64{v, w}, "dup:column"
+	case 3: // three records summing to zero
+		a, b := cp(v), make([]int64, nst)
+		for i := range b {
+			b[i] = int64(r.Intn(7)) - 3
+		}
+		s := make([]int64, nst)
+		for i := range s {
+			s[i] = -(a[i] + b[i])
+		}
+		return [][]int64{a, b, s}, "dup:three"
+	case 4: // cancel only through int64 wrap-around, or at the extremes
+		a, b := make([]int64, nst), make([]int64, nst)
+		for i := range a {
+			if r.Bool() {
+				a[i], b[i] = math.MinInt64, math.MinInt64
+			} else {
+				a[i], b[i] = math.MaxInt64, -math.MaxInt64
+			}
+		}
+		return [][]int64{a, b}, "dup:wrap"
+	case 5: // duplicates that add up, plus a literal all-zero record of the same stack
+		return [][]int64{v, cp(v), make([]int64, nst)}, "dup:add"
+	default: // cancel, and come back: v, -v, v
+		return [][]int64{v, neg(v), cp(v)}, "dup:revive"
+	}
+}
+
+const c03DupModes = 7
+
+// c03DupWorld: stack A = [loc0, caller] (three inline functions only it uses), stack B = [loc1, caller]
+// (its own address and functions), labelled according to lab: 0 both kinds, 1 none, 2 string, 3 numeric.
+func c03DupWorld(lab int) *c03Pool {
+	w := c03BaseWorld()
+	w.fs = append(w.fs, c03F{"g0", "g0", "d.go", 2})
+	w.ls[1] = c03L{m: 0, rel: 0x200, lines: []c03Ln{{4, 5, 1}}}
+	for i := range w.ss {
+		switch lab {
+		case 1:
+			w.ss[i].label, w.ss[i].num, w.ss[i].numUnit = nil, nil, nil
+		case 2:
+			w.ss[i].num, w.ss[i].numUnit = nil, nil
+		case 3:
+			w.ss[i].label = nil
+		}
+	}
+	// same stack as A, other labels: must survive when A's records cancel
+	o := cloneS(w.ss[0])
+	o.label = map[string][]string{"other": {"x"}}
+	w.ss = append(w.ss, o)
+	return w
+}
+
+func c03DupSystematic(c *Ctx) {
+	r := c.R
+	h := c03Header{st: []profile.ValueType{{Type: "samples", Unit: "count"}, {Type: "cpu", Unit: "ns"}},
+		pt: &profile.ValueType{Type: "cpu", Unit: "ns"}, period: 10, time: 100, dur: 5}
+	k := 0
+	for lab := 0; lab < 4; lab++ {
+		for mode := 0; mode < c03DupModes; mode++ {
+			for _, withOthers := range []bool{false, true} {
+				k++
+				if c.Tier != "thorough" && (k+lab)%2 == 0 { // quick tier: half of the table, every (lab, mode) pair present
+					continue
+				}
+				w := c03DupWorld(lab)
+				vals, tag := c03DupGroup(r, 2, mode)
+				var uses []c03Use
+				if withOthers {
+					uses = append(uses, c03Use{1, []int64{3, 30}})
+				}
+				for i, v := range vals {
+					uses = append(uses, c03Use{0, v})
+					if withOthers && i == 0 {
+						uses = append(uses, c03Use{2, []int64{7, 70}}) // same stack, other labels, in between
+					}
+				}
+				tags := []string{tag, fmt.Sprintf("lab:%d", lab)}
+				one := func() *profile.Profile { return c03Instantiate(r, w, h, uses, r.Intn(4), r.Bool(), r.P(1, 2)) }
+				// the one-element list, through Merge and through Compact
+				c03Emit(c, "dup-single", []*profile.Profile{one()}, true, tags...)
+				c03EmitCompact(c, "dup-compact", one(), true, tags...)
+				// k inputs: duplicates in the first, in the last, in all of them
+				plain := c03Instantiate(r, w, h, []c03Use{{1, []int64{1, 10}}}, r.Intn(4), true, true)
+				switch k % 3 {
+				case 0:
+					c03Emit(c, "dup-multi", []*profile.Profile{one(), plain}, true, tags...)
+				case 1:
+					c03Emit(c, "dup-multi", []*profile.Profile{plain, one()}, true, tags...)
+				default:
+					c03Emit(c, "dup-multi", []*profile.Profile{one(), plain, one()}, true, tags...)
+				}
+			}
+		}
+	}
+}
+
+// random pools: groups of duplicate records mixed with ordinary ones, in 1..3 inputs
+func c03DupRandom(c *Ctx) {
+	r := c.R
+	pool := c03RandPool(r, false)
+	if r.Bool() { // make sure labelled and unlabelled samples both occur
+		t := c03RandS(r, pool)
+		pool.ss[0].label, pool.ss[0].num, pool.ss[0].numUnit = t.label, t.num, t.numUnit
+	}
+	nst := 1 + r.Intn(3)
+	h := c03RandHeader(r, nst)
+	np := int(PickI(r, []int64{1, 1, 1, 2, 2, 3}))
+	var ps []*profile.Profile
+	var tags []string
+	for i := 0; i < np; i++ {
+		var uses []c03Use
+		if i == 0 || r.P(2, 3) {
+			for g := 1 + r.Intn(2); g > 0; g-- {
+				si := r.Intn(len(pool.ss))
+				vals, tag := c03DupGroup(r, nst, r.Intn(c03DupModes))
+				tags = append(tags, tag)
+				for _, v := range vals {
+					uses = append(uses, c03Use{si, v})
+				}
+			}
+		}
+		for k := r.Intn(3); k > 0; k-- {
+			uses = append(uses, c03Use{r.Intn(len(pool.ss)), c03Vals(r, nst)})
+		}
+		for a := len(uses) - 1; a > 0; a-- { // records of one group need not be adjacent
+			b := r.Intn(a + 1)
+			uses[a], uses[b] = uses[b], uses[a]
+		}
+		ps = append(ps, c03Instantiate(r, pool, c03VaryHeader(r, h), uses, r.Intn(4), r.Bool(), r.P(1, 3)))
+	}
+	c03Emit(c, "dup-random", ps, true, tags...)
+	if np == 1 {
+		c03EmitCompact(c, "dup-random-compact", ps[0], true, tags...)
+	}
+}
+
 func runC03(c *Ctx) {
 	c03KeyCases(c, c.Budget(100, 5000))
 	c03LocKeyCases(c, c.Budget(100, 5000))
 	c03Regressions(c)
 	c03HeaderCases(c)
 	c03AttrPairs(c)
+	c03DupSystematic(c)
+	for i := c.Budget(60, 6000); i > 0; i-- {
+		c03DupRandom(c)
+	}
 	for i := c.Budget(400, 40000); i > 0; i-- {
 		c03RandomList(c, "pool", false)
 	}
